@@ -38,26 +38,41 @@ def encodeOffset (s : Instr) : Instr :=
   else if !typeIs s.key c_CONTROL_FLOW && !s.kw.isByte then { s with opOffset := getOpcodeOffset s }
   else s
 
-/-- `encode_mem`: returns the new record and whether the result was different from NA
-    (i.e. whether there is a memory operand). -/
-def encodeMem (s : Instr) (mi : Nat) : Instr × Bool :=
-  if !s.memDisp then (s, false) else
-  let m := s.opd mi
+/-- 0x67 for 32-bit address registers, 0x66 for a 16-bit base register -/
+def setAddrPrefixes (s : Instr) (m : Operand) : Instr :=
   let s := if (m.reg &&& c_BIT_MASK) == c_BIT_32 || (m.index &&& c_BIT_MASK) == c_BIT_32
            then { s with hex := { s.hex with is67 := true } } else s
-  let s := if (m.reg &&& c_BIT_MASK) == c_BIT_16
-           then { s with hex := { s.hex with is66 := true } } else s
-  let m := if band s.opt c_NASM_SIB_INDEX_BASE_SWAP && (m.index &&& c_REG_MASK) == c_spl
-              && s.sibDisp == 0
-           then { m with index := m.reg, reg := m.index } else m
-  let s := s.setOpd mi m
-  let s := if (m.reg &&& c_VALUE_MASK) == c_spl && m.index == c_reg_none
-           then { s with isSibConst := true } else s
-  if s.memOffset != 0 then (s, true) else
+  if (m.reg &&& c_BIT_MASK) == c_BIT_16 then { s with hex := { s.hex with is66 := true } } else s
+
+/-- the index/base swap of a stack-pointer index -/
+def swapOperand (m : Operand) (swap : Bool) : Operand :=
+  if swap then { m with index := m.reg, reg := m.index } else m
+
+/-- rsp/r12 as only register needs the SIB byte 0x24 -/
+def markSibConst (s : Instr) (m : Operand) : Instr :=
+  if (m.reg &&& c_VALUE_MASK) == c_spl && m.index == c_reg_none then { s with isSibConst := true } else s
+
+/-- rbp/r13 base with zero displacement needs mod 01 and a zero byte -/
+def zeroDispFix (s : Instr) (m : Operand) : Instr :=
+  if s.memOffset != 0 then s else
   let regOpd := m.reg &&& c_MODE_MASK
   if regOpd > c_ext16 && regOpd < c_mmx64 && (m.reg &&& c_VALUE_MASK) == c_bpl
-  then ({ s with modDisp := c_MOD8, zeroByte := true }, true)
-  else (s, true)
+  then { s with modDisp := c_MOD8, zeroByte := true }
+  else s
+
+/-- `encode_mem` for a line that has a memory operand, given whether the index/base swap fires -/
+def encodeMemCore (s : Instr) (mi : Nat) (swap : Bool) : Instr :=
+  let m := swapOperand (s.opd mi) swap
+  zeroDispFix (markSibConst ((setAddrPrefixes s (s.opd mi)).setOpd mi m) m) m
+
+/-- does encode_mem swap index and base?  (NASM_SIB_INDEX_BASE_SWAP, unscaled stack-pointer index) -/
+def swapFires (opt : Nat) (s : Instr) (mi : Nat) : Bool :=
+  band opt c_NASM_SIB_INDEX_BASE_SWAP && ((s.opd mi).index &&& c_REG_MASK) == c_spl && s.sibDisp == 0
+
+/-- `encode_mem`: returns the new record and whether the result was different from NA
+    (i.e. whether there is a memory operand). -/
+def encodeMem (opt : Nat) (s : Instr) (mi : Nat) : Instr × Bool :=
+  if !s.memDisp then (s, false) else (encodeMemCore s mi (swapFires opt s mi), true)
 
 /-- `instrc->hex.rex = get_rex_prefix(instrc, m, r)` -/
 def setRex (s : Instr) (m r : Operand) : Instr :=
@@ -65,19 +80,19 @@ def setRex (s : Instr) (m r : Operand) : Instr :=
   { s with hex := { s.hex with rex := rex } }
 
 /-- `encode_two_opds`. -/
-def encodeTwoOpds (s : Instr) (r m : Nat) : R Instr :=
-  let (s, hasMem) := encodeMem s m
+def encodeTwoOpds (opt : Nat) (s : Instr) (r m : Nat) : R Instr :=
+  let (s, hasMem) := encodeMem opt s m
   let s := if hasMem then autoSetOperand s (s.opd r).reg else s
-  match getReg s m (s.opd r).reg with
+  match getReg opt s m (s.opd r).reg with
   | .error e => .error e
   | .ok s => .ok (setRex s (s.opd m) (s.opd r))
 
 /-- `encode_three_opds`. -/
-def encodeThreeOpds (s : Instr) (r m v : Nat) : R Instr :=
-  let (s, hasMem) := encodeMem s m
+def encodeThreeOpds (opt : Nat) (s : Instr) (r m v : Nat) : R Instr :=
+  let (s, hasMem) := encodeMem opt s m
   let s := if hasMem then autoSetOperand s (s.opd r).reg else s
   let s := { s with hex := { s.hex with vvvv := (s.opd v).reg &&& c_MASK_4BIT } }
-  match getReg s m (s.opd r).reg with
+  match getReg opt s m (s.opd r).reg with
   | .error e => .error e
   | .ok s => .ok (setRex s (s.opd m) (s.opd r))
 
@@ -89,15 +104,15 @@ def setRdOffsetO (s : Instr) (m : Nat) : Instr :=
 def noRegister : Operand := { reg := c_reg_none, index := c_reg_none }
 
 /-- `encode_special_opd(instrc, FIRST_OPERAND, SECOND_OPERAND)`. -/
-def encodeSpecialOpd (s : Instr) (m i : Nat) : R Instr :=
+def encodeSpecialOpd (opt : Nat) (s : Instr) (m i : Nat) : R Instr :=
   let row := rowAt s.key
   if row.enc == c_M then
-    let (s, _) := encodeMem s m
-    match getReg s m row.singleReg with
+    let (s, _) := encodeMem opt s m
+    match getReg opt s m row.singleReg with
     | .error e => .error e
     | .ok s => .ok (setRex s (s.opd m) noRegister)
   else if row.enc == c_O then
-    let (s, _) := encodeMem s m
+    let (s, _) := encodeMem opt s m
     let regR := row.singleReg
     let (s, regR) :=
       if s.kw.isFar && (s.memDisp || s.memValue) then
@@ -107,7 +122,7 @@ def encodeSpecialOpd (s : Instr) (m i : Nat) : R Instr :=
       else (s, regR)
     let s := if ((s.opd m).reg &&& c_MODE_MASK) == c_ext64
              then { s with hex := { s.hex with rex := s.hex.rex ||| (c_rex_ + c_rex_b) } } else s
-    match getReg s m regR with
+    match getReg opt s m regR with
     | .error e => .error e
     | .ok s => .ok (setRdOffsetO s m)
   else if row.enc == c_I then .ok (setRex s (s.opd m) (s.opd i))
@@ -126,18 +141,18 @@ def xchgAdjust (s : Instr) : Instr :=
   else s
 
 /-- `encode_operands`, the switch over the operand encoding of the selected row -/
-def dispatchEnc (s : Instr) : R Instr :=
+def dispatchEnc (opt : Nat) (s : Instr) : R Instr :=
   let enc := (rowAt s.key).enc
-  if enc == c_MR then encodeTwoOpds s 1 0
-  else if enc == c_RM then encodeTwoOpds s 0 1
-  else if enc == c_RVM then encodeThreeOpds s 0 2 1
-  else if enc == c_RMV then encodeThreeOpds s 0 1 2
-  else encodeSpecialOpd s 0 1
+  if enc == c_MR then encodeTwoOpds opt s 1 0
+  else if enc == c_RM then encodeTwoOpds opt s 0 1
+  else if enc == c_RVM then encodeThreeOpds opt s 0 2 1
+  else if enc == c_RMV then encodeThreeOpds opt s 0 1 2
+  else encodeSpecialOpd opt s 0 1
 
 /-- `encode_operands`. -/
-def encodeOperands (s : Instr) : R Instr :=
+def encodeOperands (opt : Nat) (s : Instr) : R Instr :=
   let s := xchgAdjust s
-  dispatchEnc (if s.memDisp then autoSetByte s else s)
+  dispatchEnc opt (if s.memDisp then autoSetByte s else s)
 
 /-- `nasm_register_size_optimize`. -/
 def nasmRegisterSizeOptimize (s : Instr) : Instr :=
@@ -146,8 +161,13 @@ def nasmRegisterSizeOptimize (s : Instr) : Instr :=
   else if (r &&& c_MODE_MASK) == c_ext64 then { s with opd0 := { s.opd0 with reg := (r &&& c_MODE_CLEAR) ||| c_ext32 } }
   else s
 
+/-- the NASM_MOV_IMM bit as the encoder sees it: under SMART it was cleared at the start of the
+    line and set again by imm_tok for a short hexadecimal literal -/
+def effNasm (opt : Nat) (s : Instr) : Bool :=
+  if band opt c_SMART_MOV_IMM then s.narrowOk else band opt c_NASM_MOV_IMM
+
 /-- `encode_imm_data_transfer`. -/
-def encodeImmDataTransfer (s : Instr) : Instr :=
+def encodeImmDataTransfer (opt : Nat) (s : Instr) : Instr :=
   let s := { s with rdOffset := s.opd0.reg &&& c_VALUE_MASK }
   if inR s.cons (c_NEG32BIT + 1) c_NEG64BIT && band s.cons c_NEG32BIT_CHECK &&
      (band s.opd0.reg c_reg64 || s.memDisp) then
@@ -155,13 +175,13 @@ def encodeImmDataTransfer (s : Instr) : Instr :=
   else
     let s :=
       if s.cons ≤ c_MAX_UNSIGNED_32BIT then
-        if band s.opt c_NASM_MOV_IMM && !s.memDisp then nasmRegisterSizeOptimize s
+        if effNasm opt s && !s.memDisp then nasmRegisterSizeOptimize s
         else if (s.cons < c_NEG32BIT_CHECK && (s.opd0.reg &&& c_MODE_MASK) ≥ c_reg64) || s.memDisp
         then { s with key := s.key + 1 }
         else s
       else s
     if (s.opd0.reg &&& c_MODE_MASK) > c_noext8 &&
-       ((band s.opt c_NASM_MOV_IMM && !s.memDisp) || (rowAt s.key).enc == c_I)
+       ((effNasm opt s && !s.memDisp) || (rowAt s.key).enc == c_I)
     then { s with opOffset := c_BIT_8 } else s
 
 /-- `encode_imm_non_data_transfer`. -/
@@ -189,7 +209,7 @@ def encodeImmOperation (s : Instr) : Instr :=
   then { s with key := s.key + 1 } else s
 
 /-- `encode_imm`. -/
-def encodeImm (s : Instr) : Instr :=
+def encodeImm (opt : Nat) (s : Instr) : Instr :=
   if !s.imm then s
   else if (typeIs s.key c_SHIFT && s.cons == 1) || typeIs s.key c_CONTROL_FLOW then
     { s with imm := false }
@@ -204,7 +224,7 @@ def encodeImm (s : Instr) : Instr :=
                  then { s with cons := s.cons &&& c_MAX_UNSIGNED_32BIT, reducedImm := true } else s
         if (s.opd0.reg &&& c_REG_MASK) == c_al then { s with key := s.key + 1 } else s
       else if s.opOffset == 1 && !typeIs s.key c_DATA_TRANSFER then encodeImmNonDataTransfer s
-      else if typeIs s.key c_DATA_TRANSFER then encodeImmDataTransfer s
+      else if typeIs s.key c_DATA_TRANSFER then encodeImmDataTransfer opt s
       else s
     -- `opd[0].reg` may have been narrowed by nasm_register_size_optimize: re-read it
     let mode := s.opd0.reg &&& c_MODE_MASK
